@@ -163,9 +163,10 @@ fn classify(input: &str, echo: &str, base: &str) -> String {
 }
 
 fn check_inputs(inputs: &[String], kind: &str, st: &mut Stats) -> CheckResult {
-    st.eval();
     let mut ctx = prelude();
     for (i, input) in inputs.iter().enumerate() {
+        // one evaluation = one input whose echo is checked (the unit distinct_nontrivial counts)
+        st.eval();
         let pre = ctx.clone();
         let o = eval(&mut ctx, input);
         if let Some((loc, msg)) = &o.panic {
